@@ -623,3 +623,76 @@ func harnessC20muxListenerClose() {
 	vCover("closed-twice")
 	vDone()
 }
+
+// harnessC08twoDials: two brokered connections being dialled at once in one direction: each stream reaches its own ID's
+// listener. NOT REGISTERED as a run of any check: GRPCBrokerMultiplex documents that multiplexed streams must be
+// established one after the other, and C08 is stated for that use; with two establishments overlapping the unchanged
+// tree itself misroutes in some schedules of this model (host side: a listener that was unblocked but has not yet
+// called session.Accept loses its stream to the next listener that is unblocked), so the run would alarm on code the
+// property does not cover. Kept for the record (DESIGN.md 0.5); `gpv run -dpor 2 harnessC08twoDials prims.go c08.go`.
+func harnessC08twoDials() {
+	mainLn = &vListener{q: make(chan net.Conn, 4)}
+	lg := vLogger{}
+	sm := grpcmux.NewGRPCServerMuxer(lg, mainLn)
+	cm, err := grpcmux.NewGRPCClientMuxer(lg, vAddr{})
+	vAssume(err == nil)
+	h2p, p2h := make(chan *plugin.ConnInfo, 8), make(chan *plugin.ConnInfo, 8)
+	hb := newGRPCBroker(&vStreamer{out: h2p, in: p2h}, nil, UnixSocketConfig{}, nil, cm)
+	pb := newGRPCBroker(&vStreamer{out: p2h, in: h2p}, nil, UnixSocketConfig{}, nil, sm)
+	go func() { vDaemon(); hb.Run() }()
+	go func() { vDaemon(); pb.Run() }()
+	mainGot := 0
+	go func() {
+		vDaemon()
+		for {
+			if _, err := sm.Accept(); err != nil {
+				return
+			}
+			mainGot++
+		}
+	}()
+	acc, dia := pb, hb
+	if vChoice(2) == 1 {
+		vCover("host-accepts")
+		acc, dia = hb, pb
+	} else {
+		vCover("plugin-accepts")
+	}
+	a, b := vNondetU32("a"), vNondetU32("b")
+	vAssume(a != b)
+	ids := []uint32{a, b}
+	var got [2][]net.Conn
+	for e := 0; e < 2; e++ {
+		e := e
+		ln, err := acc.Accept(ids[e])
+		vAssume(err == nil)
+		go func() {
+			vDaemon()
+			for {
+				c, err := ln.Accept()
+				if err != nil {
+					return
+				}
+				got[e] = append(got[e], c)
+			}
+		}()
+	}
+	vSleepUntil(sec)
+	var dialed [2]net.Conn
+	var derr [2]error
+	done := make(chan struct{}, 2)
+	for e := 0; e < 2; e++ {
+		e := e
+		go func() { dialed[e], derr[e] = dia.muxDial(ids[e])("", 0); done <- struct{}{} }()
+	}
+	<-done
+	<-done
+	vSleepUntil(vNow() + 6*sec)
+	vAssert(derr[0] == nil && derr[1] == nil, "C08: two dials in flight at once both succeed")
+	for e := 0; e < 2; e++ {
+		vAssert(len(got[e]) == 1 && got[e][0].(*yamux.Stream) == strmPeer[dialed[e].(*yamux.Stream)], "C08: with two dials in flight at once each stream is delivered by its own ID's listener")
+	}
+	vAssert(mainGot == 0 && !sessionClosed, "C08: the main listener gets no brokered stream and the session stays open")
+	vCover("both-routed")
+	vDone()
+}
